@@ -228,6 +228,9 @@ func (w *World) refreshShadow(n *node, post *raft.VerifState, in *pb.Message, ki
 				w.Stats["entries-overwritten"]++
 				if idx >= n.st.UnstableOffset && idx < n.st.OffsetInProgress {
 					w.Stats["entries-overwritten-while-being-persisted"]++
+					if idx > n.st.UnstableOffset && post.LastIndex > idx && (old == nil || idx == n.shadowBase+1 || n.shadow[idx-n.shadowBase-2].Term == ns[i-1].Term) {
+						w.Stats["inflight-tail-replaced-by-2-or-more"]++
+					}
 				}
 				if idx <= n.st.Commit {
 					w.violate("C01", []string{"C04", "C03", "C06"}, "node %d: committed entry %d (commit %d) replaced on %s", n.id, idx, n.st.Commit, in.GetType())
